@@ -356,6 +356,7 @@ package bt
 
 //@ func bt.(*Tx).estimatedFinalTx
 //@   bytes array
+//@   opt index-fn 1
 //@   opt frame-keys F:bt.Input.UnlockingScript
 //@   opt closed-heaps 1
 //@   requires (spec.inputs_nonnil tx) (spec.outputs_nonnil tx)
@@ -363,9 +364,11 @@ package bt
 //@   ensures[est_final_wf] (=> (= err nil) (and (not (nil? result)) (spec.inputs_nonnil result) (spec.out_scripts_nonnil result) (= (len (. result Inputs)) (len (. tx Inputs))) (= (len (. result Outputs)) (len (. tx Outputs)))))
 //@   ensures[C11.estimate_needs_prev_script] (=> (= err nil) (forall ((k Int)) (=> (and (<= 0 k) (< k (len (. tx Inputs)))) (not (nil? (old (. (at (. tx Inputs) k) PreviousTxScript)))))))
 //@   ensures[C11.estimate_fills_unlocking] (=> (= err nil) (forall ((k Int)) (=> (and (<= 0 k) (< k (len (. result Inputs)))) (and (not (nil? (. (at (. result Inputs) k) UnlockingScript))) (> (len (. (at (. result Inputs) k) UnlockingScript)) 0)))))
+//@   ensures[C11.estimate_only_supported_scripts] (=> (= err nil) (forall ((k Int)) (=> (and (<= 0 k) (< k (len (. tx Inputs)))) (or (spec.is_p2pkh (deref (old (. (at (. tx Inputs) k) PreviousTxScript)))) (insc_ok (old (. (at (. tx Inputs) k) PreviousTxScript)))))))
 //@   ensures[est_final_amounts] (=> (= err nil) (and (forall ((k Int)) (=> (and (<= 0 k) (< k (len (. result Inputs)))) (= (. (at (. result Inputs) k) PreviousTxSatoshis) (old (. (at (. tx Inputs) k) PreviousTxSatoshis))))) (forall ((k Int)) (=> (and (<= 0 k) (< k (len (. result Outputs)))) (= (. (at (. result Outputs) k) Satoshis) (old (. (at (. tx Outputs) k) Satoshis)))))))
 //@   loop 0 invariant (and (not (nil? tempTx)) (spec.clone_ok tempTx) (spec.out_scripts_ok tempTx) (= (len (. tempTx Inputs)) (len (. tx Inputs))) (= (len (. tempTx Outputs)) (len (. tx Outputs))))
 //@   loop 0 invariant (forall ((k Int)) (=> (and (<= 0 k) (<= k rangeindex) (< k (len (. tx Inputs)))) (not (nil? (old (. (at (. tx Inputs) k) PreviousTxScript))))))
+//@   loop 0 invariant (forall ((k Int)) (=> (and (<= 0 k) (<= k rangeindex) (< k (len (. tx Inputs)))) (or (spec.is_p2pkh (deref (old (. (at (. tx Inputs) k) PreviousTxScript)))) (insc_ok (old (. (at (. tx Inputs) k) PreviousTxScript))))))
 //@   loop 0 invariant (forall ((k Int)) (=> (and (<= 0 k) (<= k rangeindex) (< k (len (. tx Inputs)))) (and (not (nil? (. (at (. tempTx Inputs) k) UnlockingScript))) (> (len (. (at (. tempTx Inputs) k) UnlockingScript)) 0))))
 //@   loop 0 invariant (forall ((k Int)) (=> (and (<= 0 k) (< k (len (. tempTx Inputs)))) (and (= (. (at (. tempTx Inputs) k) PreviousTxScript) (old (. (at (. tx Inputs) k) PreviousTxScript))) (= (. (at (. tempTx Inputs) k) PreviousTxSatoshis) (old (. (at (. tx Inputs) k) PreviousTxSatoshis))) (not (nil? (. (at (. tempTx Inputs) k) UnlockingScript))))))
 //@   loop 0 invariant (forall ((k Int)) (=> (and (<= 0 k) (< k (len (. tempTx Outputs)))) (= (. (at (. tempTx Outputs) k) Satoshis) (old (. (at (. tx Outputs) k) Satoshis)))))
